@@ -72,7 +72,7 @@ CHECKS["C07"] = dict(
     assumptions=["reference cursor vc_field is the specification of a lookup", "lookups are issued only inside objects"],
     jobs=[dict(name="c07x", src=WALK, build="gasan", mode="c07x", cases=(28506, 2450522), opt=("6", "8"), require=["product_states", "lookups_found", "lookups_absent", "wrong_type_raised"]),
           dict(name="c07h", src=WALK, build="gasan", mode="c07x", cases=(28506, 259674), opt=("6 hostile", "7 hostile"), require=["product_states", "lookups_found", "lookups_absent"]),
-          dict(name="c07r", src=WALK, build="gasan", mode="c07r", cases=(600000, 6000000), require=["calls", "lookups_found", "lookups_absent"])],
+          dict(name="c07r", src=WALK, build="gasan", mode="c07r", cases=(600000, 6000000), require=["calls", "lookups_found", "lookups_absent", "lookups_name_inside_document"])],
 )
 
 CHECKS["C10"] = dict(
